@@ -338,14 +338,30 @@ def _unit(node_or_join):
     return node_or_join[2] if len(node_or_join) > 2 else None
 
 
+_TZ = [None]      # the time zone of every index of the case that is running (spec['tz']); None = naive stamps
+
+
+def _aware(t):
+    """the axis stamp t as the case spells it: the wall time t in the case's zone"""
+    import pandas as pd
+    return t if _TZ[0] is None else pd.Timestamp(t).tz_localize(_TZ[0])
+
+
+def _same_stamp(g, t):
+    if _TZ[0] is None:
+        return g == t
+    return getattr(g, 'tzinfo', None) is not None and g == _aware(t)       # the same instant, still zone-aware
+
+
 def _mk_index(pos, unit=None):
     import pandas as pd
 
     def make():
         i = pd.DatetimeIndex([AXIS[p] for p in pos])
-        return i.as_unit(unit) if unit else i
+        i = i.as_unit(unit) if unit else i
+        return i.tz_localize(_TZ[0]) if _TZ[0] else i
     if _SHARED[0] is not None:
-        key = (tuple(pos), unit)
+        key = (tuple(pos), unit, _TZ[0])
         if key not in _SHARED[0]:
             _SHARED[0][key] = make()
         return _SHARED[0][key]
@@ -508,8 +524,8 @@ def _show(vals):
 
 def _check_index(where, res, target):
     got = list(res.index)
-    ok = len(got) == len(target) and all(g == AXIS[p] for g, p in zip(got, target))
-    check(ok, '%s: index is %s, expected %s', where, [str(g) for g in got], [str(AXIS[p]) for p in target])
+    ok = len(got) == len(target) and all(_same_stamp(g, AXIS[p]) for g, p in zip(got, target))
+    check(ok, '%s: index is %s, expected %s', where, [str(g) for g in got], [str(_aware(AXIS[p])) for p in target])
 
 
 def _check_column(where, got, exp):
@@ -717,6 +733,10 @@ def _classes(spec, leaves, target, ctx):
     if 'same_span_same_length_different_interior' in cls and _jkind(spec['join']) in ('i', 'o'):
         cls.append('twins_under_ij_oj')
     cls += _share_classes(spec, leaves)
+    if spec.get('tz'):
+        cls.append('zone_aware_stamps')
+        if spec['tz'] != 'Europe/London' and _jkind(spec['join']) == 'o' and len(idxs) >= 2:
+            cls.append('zone_aware_stamps_off_utc_under_an_outer_join')
     cls += _round4_classes(spec, leaves, target)
     nt = len(idxs) >= 2 and (partial or disjoint) or bool(ctx is not None and ctx.filled)
     return dict(nt=bool(nt), cls=cls)
@@ -785,6 +805,7 @@ def _round4_classes(spec, leaves, target):
 # ============================================================================================ run: df_index / df_reindex / df_sync
 
 def run_sync(spec):
+    _TZ[0] = spec.get('tz')
     from pyg_base import df_sync, df_reindex, df_index
     tree, join, method, fn = spec['tree'], spec['join'], spec['method'], spec['call']
     objs = _build_case(spec)
@@ -797,8 +818,8 @@ def run_sync(spec):
     if fn == 'df_index':
         res = call(what, df_index, seq=objs, index=jarg) if kw else call(what, df_index, objs, jarg)
         if target is not None:
-            check(res is not None and hasattr(res, '__len__') and len(res) == len(target) and all(g == AXIS[p] for g, p in zip(list(res), target)),
-                  '%s returned %s, expected %s', what, res, [str(AXIS[p]) for p in target])
+            check(res is not None and hasattr(res, '__len__') and len(res) == len(target) and all(_same_stamp(g, AXIS[p]) for g, p in zip(list(res), target)),
+                  '%s returned %s, expected %s', what, res, [str(_aware(AXIS[p])) for p in target])
     else:
         if fn == 'df_reindex':
             res = call(what, df_reindex, ts=objs, index=jarg, method=method) if kw else call(what, df_reindex, objs, jarg, method)
@@ -961,6 +982,7 @@ def _presync_classes(spec, kids):
 
 
 def run_presync(spec):
+    _TZ[0] = spec.get('tz')
     tree, join, method = spec['tree'], spec['join'], spec['method']
     kids = tree[1]
     objs = _build_case(spec)
@@ -1005,6 +1027,7 @@ def run_presync(spec):
 
 def run_presync_cols(spec):
     """default column mode with frames: f is called once per common column and must see, each time, every argument on the common index"""
+    _TZ[0] = spec.get('tz')
     import pandas as pd
     tree, join, method, columns = spec['tree'], spec['join'], spec['method'], spec['columns']
     kids = tree[1]
@@ -1335,6 +1358,8 @@ def _idx(draw, state):
     return draw(_free_idx())
 
 
+# every index of a case in one time zone (None = naive): zones with an offset from UTC in January, and one without
+_TZS = st.sampled_from([None, None, None, None, None, 'Asia/Tokyo', 'US/Eastern', 'Europe/London'])
 _family = st.sampled_from([None] * 6 + ['twin', 'twin', 'twin', 'same_len', 'same_ends', 'prefix', 'suffix', 'subset', 'superset', 'disjoint'])
 
 
@@ -1536,7 +1561,7 @@ def _sync_case(draw):
     join = _right_when_last_shares(draw, tree, _round4_join(draw, state, tree, _target_like_first(draw, state, tree, join)))
     if state['family'] == 'disjoint' and draw(st.booleans()):
         join = _SPELL['i'][draw(st.booleans())]              # every index is disjoint from the first one: half of these cases ask for the (empty) intersection
-    spec = dict(call=fn, tree=tree, join=join, method=method, share_index=draw(st.booleans()))
+    spec = dict(call=fn, tree=tree, join=join, method=method, share_index=draw(st.booleans()), tz=draw(_TZS))
     if fn == 'df_sync':
         spec['columns'] = columns
     if state['dups']:
@@ -1560,7 +1585,7 @@ def _asof_case(draw):
                               _positions().map(lambda p: ['series', p]), st.sampled_from(['ij', 'oj'])))
     if state['units'] and isinstance(join, list):
         join = [join[0], join[1], draw(st.sampled_from(_UNITS))]
-    return _repair(dict(call='df_reindex', tree=leaf, join=join, method=draw(st.sampled_from(['ffill', 'bfill']))))
+    return _repair(dict(call='df_reindex', tree=leaf, join=join, method=draw(st.sampled_from(['ffill', 'bfill'])), tz=draw(_TZS)))
 
 
 @st.composite
@@ -1600,7 +1625,7 @@ def _presync_case(draw, frames_in_col_mode=False):
         join = ['arg', single[draw(st.integers(0, len(single) - 1))]]
     if join[0] == 'arg' and (sig == 'var_both' or (sig in ('varargs', 'varkw') and join[1] != 0)):
         sig, npos = 'named', draw(st.integers(0, len(kids)))                      # index='p<i>' names a declared parameter
-    spec = dict(call='presync', tree=tree, join=join, method=method, columns=columns, how=how, npos=npos, sig=sig, share_index=draw(st.booleans()))
+    spec = dict(call='presync', tree=tree, join=join, method=method, columns=columns, how=how, npos=npos, sig=sig, share_index=draw(st.booleans()), tz=draw(_TZS))
     if state['dups']:
         spec['same_objects'] = draw(st.integers(0, 3)) != 0
     r = draw(st.integers(0, 5))
@@ -1732,7 +1757,7 @@ def _session_case(draw):
             if fn == 'df_sync':
                 c['columns'] = draw(st.sampled_from(['ij', 'oj', False]))
         calls.append(dict(sel=sel, call=_repair(c)))
-    return dict(calls=calls, share_index=draw(st.booleans()), share_containers=share_containers)
+    return dict(calls=calls, share_index=draw(st.booleans()), share_containers=share_containers, tz=draw(_TZS))
 
 
 def run_session(spec):
@@ -1747,7 +1772,7 @@ def run_session(spec):
         again = other_policy = False
         before = None
         for c in spec['calls']:
-            sub = dict(c['call'], share_index=False)
+            sub = dict(c['call'], share_index=False, tz=spec.get('tz'))
             _SHARED[0] = shared             # the index objects too live for the whole session (objects are cached, so only new leaves ask)
             key = json.dumps(sub['tree'])
             if _CONTAINERS[0] is not None and sub['call'] != 'presync' and sub['tree'][0] != 'tuple' and key in trees:
@@ -1819,7 +1844,7 @@ SUBS = [
              'columns ij/oj/lj/rj/None/False. Oracle: dictionary model per cell, index as ordered list, column set, container types/keys, identity of '
              'non-timeseries members, inputs unchanged. non-trivial = two timeseries with partially overlapping or disjoint indices, or a cell actually '
              'filled from another stamp',
-        floor=0.3, class_floors={'shared_index_object_around_another_index': 0.02, 'right_join_on_a_shared_index_object': 0.004, 'depth>=2': 0.15, 'empty_intersection': 0.005, 'empty_series': 0.05, 'frames_differing_columns': 0.03,
+        floor=0.3, class_floors={'zone_aware_stamps': 0.1, 'zone_aware_stamps_off_utc_under_an_outer_join': 0.01, 'shared_index_object_around_another_index': 0.02, 'right_join_on_a_shared_index_object': 0.004, 'depth>=2': 0.15, 'empty_intersection': 0.005, 'empty_series': 0.05, 'frames_differing_columns': 0.03,
                                  'as_of_filled_cell': 0.1, 'join=l': 0.04, 'join=r': 0.04, 'join=idx': 0.05, 'join=series': 0.05, 'join=i': 0.04, 'join=o': 0.04,
                                  'same_span_same_length_different_interior': 0.04, 'twins_under_ij_oj': 0.01, 'same_length_different_stamps': 0.04,
                                  'same_endpoints_different_length': 0.03, 'nested_chain': 0.03, 'same_first_two_stamps': 0.03, 'same_last_two_stamps': 0.02,
